@@ -29,6 +29,7 @@ type Engine struct {
 	loadSecs float64
 	sortedNames []string
 	flowTypes []*types.Map
+	aliases   map[string]string // contract name of a moved closure -> the closure's real name
 }
 
 func (e *Engine) panicTagsFor(fn string) []string { return nil }
@@ -88,7 +89,110 @@ func loadEngine(repo string) (*Engine, error) {
 		return nil, err
 	}
 	e.spec = sf
+	e.resolveClosureAliases()
 	return e, nil
+}
+
+// globalIndex: position of a package-level variable among the package's variables (sorted by name).
+func (e *Engine) globalIndex(name string) int {
+	var names []string
+	for n, m := range e.spkg.Members {
+		if _, ok := m.(*ssa.Global); ok {
+			names = append(names, n)
+		}
+	}
+	sort.Strings(names)
+	for i, n := range names {
+		if n == name {
+			return i
+		}
+	}
+	return len(names)
+}
+
+// resolveClosureAliases: a contract named F$k whose closure no longer exists under that name is
+// bound to the k-th closure literal created in F's inline tree (F's own body and the bodies of the
+// un-contracted in-package helpers it calls, in instruction order). Moving a closure literal into a
+// helper (`p.tasks <- p.tracked(task)`) then keeps its contract; the contract is still verified
+// against the closure's real body, the alias only names it.
+func (e *Engine) resolveClosureAliases() {
+	e.aliases = map[string]string{}
+	var names []string
+	for _, n := range e.spec.Order {
+		names = append(names, n)
+	}
+	sort.Slice(names, func(i, j int) bool { return strings.Count(names[i], "$") < strings.Count(names[j], "$") })
+	for _, name := range names {
+		base := name
+		if i := strings.Index(base, "+"); i >= 0 {
+			continue
+		}
+		if e.funcs[base] != nil {
+			continue
+		}
+		i := strings.LastIndex(base, "$")
+		if i < 0 {
+			continue
+		}
+		k := 0
+		if _, err := fmt.Sscanf(base[i+1:], "%d", &k); err != nil || k < 1 {
+			continue
+		}
+		parent := e.funcs[base[:i]]
+		if parent == nil {
+			continue
+		}
+		var found []*ssa.Function
+		seen := map[*ssa.Function]bool{}
+		var walk func(fn *ssa.Function, depth int)
+		walk = func(fn *ssa.Function, depth int) {
+			if fn == nil || seen[fn] || depth > maxInlineDepth || fn.Blocks == nil {
+				return
+			}
+			seen[fn] = true
+			for _, b := range fn.Blocks {
+				for _, in := range b.Instrs {
+					switch x := in.(type) {
+					case *ssa.MakeClosure:
+						if f, ok := x.Fn.(*ssa.Function); ok {
+							found = append(found, f)
+						}
+					case ssa.CallInstruction:
+						c := x.Common().StaticCallee()
+						if c == nil || c.Pkg != e.spkg {
+							continue
+						}
+						if ct := e.spec.Contracts[relName(c)]; ct != nil && !ct.Abstract {
+							continue
+						}
+						if _, isClosure := x.Common().Value.(*ssa.MakeClosure); isClosure {
+							continue
+						}
+						walk(c, depth+1)
+					}
+				}
+			}
+		}
+		walk(parent, 0)
+		if k > len(found) {
+			continue
+		}
+		f := found[k-1]
+		if _, taken := closureAlias[f]; taken {
+			// a helper shared by several former closure sites: every one of their contracts is verified
+			// against the one closure; callers see it under the first name
+			e.aliases[name] = e.aliases[closureAlias[f]]
+			e.funcs[name] = f
+			continue
+		}
+		if e.spec.Contracts[relName(f)] != nil {
+			continue
+		}
+		e.aliases[name] = relName(f)
+		delete(e.funcs, relName(f))
+		closureAlias[f] = name
+		e.funcs[name] = f
+	}
 }
 
 // newVC prepares the verification of one function for one property projection.
